@@ -40,7 +40,7 @@ func statsToSimkit(w *chainsim.World) {
 	sort.Strings(keys)
 	for _, k := range keys {
 		switch k {
-		case "crash_inside_step", "byz_serving_unlinked_block", "byz_lying_common_block", "gossip_topic_blackout", "gossip_dropped", "gossip_duplicated", "gossip_cut", "rpc_timeout", "rpc_error", "rpc_truncated", "rpc_bitflip", "crash", "restart", "partition", "heal", "ban",
+		case "crash_inside_step", "byz_serving_unlinked_block", "byz_serving_payload_swapped_twin", "byz_lying_common_block", "gossip_topic_blackout", "gossip_dropped", "gossip_duplicated", "gossip_cut", "rpc_timeout", "rpc_error", "rpc_truncated", "rpc_bitflip", "crash", "restart", "partition", "heal", "ban",
 			"clock_skew", "clock_jump_backwards", "clock_jump_forwards", "node_stalled", "rpc_to_stalled_node", "gossip_held_for_stalled_node", "node_muted", "gossip_from_muted_node_lost":
 			simkit.FaultN(k, w.S.Stats[k])
 		default:
@@ -203,6 +203,9 @@ func runHonest(t *rapid.T, c runCfg, extra func(w *chainsim.World, m *chainsim.M
 	var adv *chainsim.Adversary
 	if len(w.Byz) > 0 {
 		adv = w.AddAdversary()
+	}
+	if adv != nil {
+		adv.SyncTwins = c.prop == "C03" || simkit.Bool(t, "synctwins")
 	}
 	m := chainsim.NewMonitor(w, nil)
 	m.Report = reporterFor(t, c.prop, w, func() string {
